@@ -51,6 +51,10 @@ def run(ctx):
     if os.environ.get("VERIF_C12_PLAN"):
         plan = [(int(x.split(":")[0]), None if x.endswith(":full") else err_alpha) for x in os.environ["VERIF_C12_PLAN"].split(",")]
     lossless.run_lossless(ctx, res, plan, ("c12",), "spans")
+    # (b) on near-valid programs: every statement skeleton with one token replaced by an arbitrary token
+    from . import h_c01
+    kitp, pf = h_c01.run_prefixes(ctx, res, 1 if ctx.quick() else 2, which=("violation",), modes=("subst",) if ctx.quick() else ("subst", "insert"))
+    h_c01.triage_failures(ctx, res, kitp, pf)
     structural_semantic_range(res)
     res.functions_encoded += ["oq3_parser::LexedStr::to_input", "oq3_parser::TopEntryPoint::parse (whole parser)",
                               "oq3_parser::LexedStr::intersperse_trivia", "oq3_parser::parser::Parser::{err_recover,err_and_bump,error,bump_any}",
